@@ -771,7 +771,9 @@ for _d in range(30):
             for b in ((0, 1, 2, 3, 255) if band == 0 else (8, 9, 10, 11, 255) if band == 2 else range(12)):
                 bname = 'other' if b == 255 else 'b%d' % b
                 _c03.append(H('c03_%s_%s_%s_d%d' % (pn, bn, bname, _d), 'k_c03_image(%d, %d, %d, %d);' % (_d, band, b, part),
-                              tiers=(((Q if (_d == 0 and b in (0, 8)) else T) if _d in (0, 1, 2) else X) if part == 1 else (T if _d == 0 else X)),   # 5-14 min per class: one north and one south class at depth 0 in quick timeout=(2400 if part == 1 else 3600), mem_gb=8, unwind=3,
+                              # border classes take 5-14 min each: one north and one south class at depth 0 in the quick tier
+                              tiers=(((Q if (_d == 0 and b in (0, 8)) else T) if _d in (0, 1, 2) else X) if part == 1 else (T if _d == 0 else X)),
+                              timeout=(1200 if (part == 1 and _d == 0) else 2400 if part == 1 else 3600), mem_gb=8, unwind=3,
                               unwindset=_c03_us(_d), stubs=_PLANE_CUT_N('verif_c03'), inputs=[('x', 'f64'), ('y', 'f64')], replay='c03_pullback', replay_const={'depth': _d},
                               covers=(['a point of the band is mapped to the base cell'] if (b != 255 and part == 0) else []),
                               domain='depth %d: every double point of the HEALPix image (x in [0, 8]) with y in the %s band that hash_with_dxdy maps %s, %s' % (
